@@ -455,6 +455,92 @@ theorem spec_runState_append (sp : Spec) (a b : List Nat) :
 
 end Quic.Proofs.DcReplay
 
+namespace Quic.Proofs.DcReplay
+open Quic.Dc.ReplayWindow
+
+theorem isOk_ne_error (r : Except Error Unit) (e : Error) (h : isOk r = true) : r ≠ .error e := by
+  intro hr; rw [hr] at h; cases h
+
+/-- which error: `AlreadyExists` exactly for ids that were accepted and are still inside the window
+    ("definitely seen"); everything else that is refused is `Unknown` -/
+theorem post_already_iff (s : State) (sp : Spec) (k : Nat) (h : Rel s sp) :
+    (postAuthentication s k).2 = .error .alreadyExists ↔
+      k ≠ keyIdMax ∧ k ∈ sp.accepted ∧ ∃ m, sp.max = some m ∧ m - k < WINDOW := by
+  by_cases hk : k = keyIdMax
+  · subst hk
+    rw [post_max]
+    constructor
+    · intro hc; cases hc
+    · intro ⟨h1, _⟩; exact absurd rfl h1
+  · have hle : ∀ x ∈ sp.accepted, ∀ m, sp.max = some m → x ≤ m := by
+      intro x hx m hm
+      obtain ⟨m', hm', hx'⟩ := h.le_max x hx
+      rw [hm] at hm'; simp only [Option.some.injEq] at hm'; omega
+    cases hm : sp.max with
+    | none =>
+      have hs := (rel_step_none s sp k h hk hm).2
+      have hacc : sp.accepts k = true := by
+        rw [accepts_iff]
+        refine ⟨hk, ?_, Or.inl hm⟩
+        intro hx; obtain ⟨m, hm', _⟩ := h.le_max k hx; rw [hm] at hm'; cases hm'
+      rw [step_accept sp k hacc] at hs
+      constructor
+      · intro hc; exact absurd hc (isOk_ne_error _ _ hs)
+      · intro ⟨_, _, m, hm', _⟩; cases hm'
+    | some m =>
+      by_cases hlt : m < k
+      · have hs := (rel_step_above s sp k m h hk hm hlt).2
+        have hacc : sp.accepts k = true := by
+          rw [accepts_iff]
+          refine ⟨hk, ?_, Or.inr ⟨m, hm, Or.inl hlt⟩⟩
+          intro hx; have := hle k hx m hm; omega
+        rw [step_accept sp k hacc] at hs
+        constructor
+        · intro hc; exact absurd hc (isOk_ne_error _ _ hs)
+        · intro ⟨_, hx, _⟩; have := hle k hx m hm; omega
+      · have hkm : k ≤ m := by omega
+        have hms : s.maxSeen = some m := by rw [h.max_eq, hm]
+        have hpn : prevNew s k = (m, m) := by
+          unfold prevNew; rw [hms]; simp only [Nat.max_eq_left hkm]
+        rw [post_eq s k hk m m hpn, shifted_zero]
+        cases hb : s.seen[m - k]? with
+        | none =>
+          rw [tas_none _ _ _ hb]
+          constructor
+          · intro hc; cases hc
+          · intro ⟨_, _, m', hm', hw⟩
+            simp only [Option.some.injEq] at hm'; subst hm'
+            rw [List.getElem?_eq_none_iff, h.len] at hb; omega
+        | some b =>
+          have hidx : m - k < WINDOW := by
+            have : m - k < s.seen.length := by
+              by_cases hlt' : m - k < s.seen.length
+              · exact hlt'
+              · rw [List.getElem?_eq_none (by omega)] at hb; cases hb
+            rw [h.len] at this; exact this
+          cases b with
+          | true =>
+            rw [tas_true _ _ _ hb]
+            simp only [true_iff]
+            obtain ⟨m', hm', _, hmem⟩ := (h.bits (m - k) hidx).1 hb
+            rw [hm] at hm'; simp only [Option.some.injEq] at hm'; subst hm'
+            have : m - (m - k) = k := by omega
+            rw [this] at hmem
+            exact ⟨hk, hmem, m, rfl, hidx⟩
+          | false =>
+            rw [tas_false _ _ _ hb]
+            constructor
+            · intro hc; cases hc
+            · intro ⟨_, hmem, _⟩
+              have : s.seen[m - k]? = some true := by
+                apply (h.bits (m - k) hidx).2
+                refine ⟨m, hm, by omega, ?_⟩
+                have : m - (m - k) = k := by omega
+                rw [this]; exact hmem
+              rw [hb] at this; cases this
+
+end Quic.Proofs.DcReplay
+
 namespace Quic.Proofs.DcKeyIds
 open Quic.Dc.KeyIds
 
